@@ -280,7 +280,11 @@ def gen_doc(rng, order, name):
                       'invalidate': rng.choice(['ByDependencies', 'ByDependencies', 'Always', 'Never']),
                       'dependencies': [gen_doc_dep(rng, order, [x for x in names if x != n]) for _ in range(rng.choice([0, 1, 2, 3, 5]))],
                       'outputs': [gen_doc_out(rng, order) for _ in range(rng.choice([0, 0, 1, 2]))]})
-    return {'version': 1, 'name': name, 'workdir': rng.choice(['', '', 'd', 'sub dir', gen_field(rng, 'path', 'doc')]), 'steps': steps}
+    # the work directory is observed through the table `xvc pipeline list` prints: one line, no cell separator, no outer blanks
+    wd = rng.choice(['', '', 'd', 'sub dir', gen_field(rng, 'path', 'doc')])
+    if any(c in wd for c in '\n\r|') or wd != wd.strip():
+        wd = rng.choice(['é: # dir', "it's/- x", 'true', '~', '1e3/null'])
+    return {'version': 1, 'name': name, 'workdir': wd, 'steps': steps}
 
 
 STRING_FIELD_KIND = {'generic_command': 'generic', 'path': 'path', 'glob': 'glob', 'regex': 'regex', 'key': 'param_key', 'query': 'query', 'name': 'step_ref',
